@@ -30,13 +30,16 @@ type scriptHandler struct {
 	// its context is cancelled.
 	Mode int
 	// Steps: extra scheduling points inside each handler.
-	Steps int
+	Steps   int
+	Gate    int // GateAll: number of handlers that must have started
+	started int
 }
 
 const (
 	IgnoreCtx = iota
 	HonourCtx
 	BlockCtx
+	GateAll // every handler waits until Gate handlers have started: forces full pipelining depth
 )
 
 // reqID extracts the identity the harness put into a request.
@@ -129,6 +132,11 @@ func (h *scriptHandler) Handle(ctx context.Context, msg p9p.Message) (p9p.Messag
 		inv.Returned = true
 	}()
 	mode := h.Mode
+	if mode == GateAll {
+		h.started++
+		vsched.WaitFor("handler.gate", vsched.CtxObj, func() bool { return h.started >= h.Gate })
+		mode = IgnoreCtx
+	}
 	if mode == BlockCtx && id != 0 {
 		mode = IgnoreCtx // only request 0 blocks until cancelled
 	}
